@@ -136,3 +136,12 @@ func CompareDecls(a, b, mode string) string
 
 // VFile declares a path of the virtual file system (os.Stat succeeds exactly for these).
 func VFile(path string)
+
+// RuneString returns a string of n symbolic runes (each ranging over all realizable Unicode
+// attribute classes); RuneCount / RuneAt inspect (possibly symbolic) strings rune-wise.
+func RuneString(n int) string
+func RuneCount(s string) int
+func RuneAt(s string, i int) rune
+
+// RuneSource: the input rune a (case-mapped) result rune derives from.
+func RuneSource(r rune) rune
